@@ -851,6 +851,7 @@ class AbsExec:
         self.events: List[Tuple[str, Any]] = []
         self.writes: List[Tuple[str, N, RoleKey]] = []
         self.max_call_depth = max_call_depth
+        self.tolerate: Set[str] = set()  # tables whose mis-selected writes are recorded as events and skipped (they are another rule's business)
         self._tk = tuple(sorted(scn.tracked))
 
     # -- values ------------------------------------------------------------------------
@@ -1038,7 +1039,12 @@ class AbsExec:
             self._exec_select(st, frame)
         elif k == 'update':
             if self._written_tracked(st):
-                self._exec_update(st, frame)
+                try:
+                    self._exec_update(st, frame)
+                except Mismatch as mm:
+                    if mm.table not in self.tolerate:
+                        raise
+                    self.events.append(('mismatch', mm))
         elif k in ('insert', 'delete'):
             if self._written_tracked(st):
                 raise AnalysisError(f'{frame.routine}: {k.upper()} on tracked table in `{text(st)[:80]}` is outside the abstraction')
@@ -1432,7 +1438,7 @@ def _order_class(sel: N) -> str:
     return 'unspecified'
 
 
-def mark_job_complete_scenario(prog: sf.SqlProgram) -> Tuple[Scenario, Dict[str, Any]]:
+def mark_job_complete_scenario(prog: sf.SqlProgram, groups: bool = True) -> Tuple[Scenario, Dict[str, Any]]:
     """Roles: the finishing job (B, J) in group G; one dependent CH of it; the tally / job_groups rows of G itself, of a generic
     self-or-ancestor K of G and of the root group 0; the batch row.  Count symbols: n (pending parents of the dependent, >= 1),
     for every tally row its four counters, for every group row its gap = n_jobs - n_completed (>= 1: the finishing job itself is
@@ -1453,10 +1459,14 @@ def mark_job_complete_scenario(prog: sf.SqlProgram) -> Tuple[Scenario, Dict[str,
     scn.add_row('jobs', 'own', dict(batch_id=B, job_id=J, state=EnumVal('own_state'), attempt_id=EnumVal('own_attempt'), job_group_id=G), key=(B, J))
     scn.add_row('jobs', 'child', dict(batch_id=B, job_id=CH, state='Pending', n_pending_parents=Lin({'n': 1}, 0), cancelled=EnumVal('child_cancelled'), always_run=EnumVal('child_always_run')), key=(B, CH))
     gid = {'own': G, 'anc': K, 'root': 0}
-    for t in ANC_TAGS:
+    for t in (ANC_TAGS if groups else ()):
         scn.add_row(TALLY, t, dict(id=B, job_group_id=gid[t], **{c: Lin({f'{c}_{t}': 1}, 0) for c in CATS}), key=(B, gid[t]))
         scn.add_row('job_groups', t, dict(batch_id=B, job_group_id=gid[t], n_jobs=Lin({f'n_completed_{t}': 1, f'gap_{t}': 1}, 0), state='running', time_completed=None), key=(B, gid[t]))
-    scn.add_row('batches', 'b', dict(id=B, n_jobs=Lin({'n_completed_root': 1, 'gap_root': 1}, 0), state='running', time_completed=None), key=(B,))
+    if groups:
+        scn.add_row('batches', 'b', dict(id=B, n_jobs=Lin({'n_completed_root': 1, 'gap_root': 1}, 0), state='running', time_completed=None), key=(B,))
+    else:
+        for t_ in (TALLY, 'job_groups', 'batches', CLOSURE):
+            scn.keycols.pop(t_, None)
 
     def children(ex: AbsExec, m: Match, st: N):
         ea = m.alias['E']
